@@ -349,7 +349,11 @@ def dphi_indep(q, f):
 
 
 def dvarphi_indep(q, f):
-    return dphi_indep(q, f) / q.d_varphi_d_phi
+    """d/dvarphi, independent of the object's matrices AND of its d_varphi_d_phi: the Boozer angle advances in proportion to arclength, one field period
+    per field period, so d varphi / d phi = (2 pi / L) dl/dphi > 0 with L the axis length (periodic trapezoid sum of the returned arclength element)"""
+    dl = np.asarray(q.d_l_d_phi, dtype=float)
+    L = float(np.sum(dl)) * (2 * np.pi / q.nfp / q.nphi) * q.nfp
+    return dphi_indep(q, f) / (2 * np.pi / L * dl)
 
 
 # Inputs distilled from seeded changes that random generation reached only rarely; every oracle that can use them runs them FIRST in check mode
